@@ -166,6 +166,7 @@ type catMsg struct {
 	Msg  jsonrpc2.Message
 	Body []byte
 	Desc string
+	Pay  string // payload kind: object | array | string | number | true | false | null | error | errdata
 }
 
 func must[T any](v T, err error) T {
@@ -173,6 +174,48 @@ func must[T any](v T, err error) T {
 		vhlib.Fatal("catalogue: %v", err)
 	}
 	return v
+}
+
+func errWithData() error {
+	d := json.RawMessage(`{"retry":false,"why":"\u00e9"}`)
+	return &jsonrpc2.Error{Code: jsonrpc2.InternalError, Message: "with data", Data: &d}
+}
+
+// payKind names the kind of JSON value a message carries as params / result, or its error shape
+// (Framing.tla: field pay).  An absent member and JSON null are the same kind.
+func payKind(m jsonrpc2.Message) string {
+	val := func(r json.RawMessage) string {
+		t := strings.TrimSpace(string(r))
+		switch {
+		case t == "" || t == "null":
+			return "null"
+		case t[0] == '{':
+			return "object"
+		case t[0] == '[':
+			return "array"
+		case t[0] == '"':
+			return "string"
+		case t == "true" || t == "false":
+			return t
+		}
+		return "number"
+	}
+	switch v := m.(type) {
+	case *jsonrpc2.Call:
+		return val(v.Params())
+	case *jsonrpc2.Notification:
+		return val(v.Params())
+	case *jsonrpc2.Response:
+		if v.Err() != nil {
+			var je *jsonrpc2.Error
+			if errors.As(v.Err(), &je) && je.Data != nil {
+				return "errdata"
+			}
+			return "error"
+		}
+		return val(v.Result())
+	}
+	return "none"
 }
 
 func catalogue() []catMsg {
@@ -195,6 +238,16 @@ func catalogue() []catMsg {
 		{"response", "str", must(jsonrpc2.NewResponse(jsonrpc2.NewStringID("007"), nil, jsonrpc2.NewError(jsonrpc2.InvalidParams, "bond")))},
 		{"call", "str", must(jsonrpc2.NewCall(jsonrpc2.NewStringID("-1"), "n", nil))},
 		{"response", "num", must(jsonrpc2.NewResponse(jsonrpc2.NewNumberID(-12), "neg", nil))},
+		// the result kinds of a SUCCESSFUL response: null (reply(ctx, nil, nil): shutdown and every void request),
+		// array, number, true, false (object and string are above) -- and error responses with data
+		{"response", "num", must(jsonrpc2.NewResponse(jsonrpc2.NewNumberID(8), nil, nil))},
+		{"response", "str", must(jsonrpc2.NewResponse(jsonrpc2.NewStringID("s\u00e9v"), nil, nil))},
+		{"response", "num", must(jsonrpc2.NewResponse(jsonrpc2.NewNumberID(9), []any{1, "\u00e9", nil}, nil))},
+		{"response", "num", must(jsonrpc2.NewResponse(jsonrpc2.NewNumberID(10), -1.5, nil))},
+		{"response", "str", must(jsonrpc2.NewResponse(jsonrpc2.NewStringID("t"), true, nil))},
+		{"response", "num", must(jsonrpc2.NewResponse(jsonrpc2.NewNumberID(11), false, nil))},
+		{"response", "num", must(jsonrpc2.NewResponse(jsonrpc2.NewNumberID(12), nil, errWithData()))},
+		{"call", "num", must(jsonrpc2.NewCall(jsonrpc2.NewNumberID(13), "m", map[string]any{"a": []int{1, 2}}))},
 	}
 	out := make([]catMsg, len(raw))
 	for i, r := range raw {
@@ -202,7 +255,7 @@ func catalogue() []catMsg {
 		if err != nil {
 			vhlib.Fatal("marshal catalogue message %d: %v", i, err)
 		}
-		out[i] = catMsg{Kind: r.kind, IDK: r.idk, ID: tidOfMsg(r.msg), Msg: r.msg, Body: body, Desc: describe(r.msg)}
+		out[i] = catMsg{Kind: r.kind, IDK: r.idk, ID: tidOfMsg(r.msg), Msg: r.msg, Body: body, Desc: describe(r.msg), Pay: payKind(r.msg)}
 		if out[i].ID.T != r.idk {
 			vhlib.Fatal("catalogue message %d: id %v is not of kind %s", i, out[i].ID, r.idk)
 		}
@@ -231,6 +284,9 @@ func describe(m jsonrpc2.Message) string {
 			var je *jsonrpc2.Error
 			if errors.As(v.Err(), &je) {
 				e = fmt.Sprintf("%d/%s", je.Code, je.Message)
+				if je.Data != nil {
+					e += "/data=" + string(*je.Data)
+				}
 			} else {
 				e = v.Err().Error()
 			}
@@ -249,11 +305,12 @@ func printCatalogue() {
 		ID   tid    `json:"id"` // text in the tlaSafe spelling
 		Blen int    `json:"blen"`
 		Rlen int    `json:"rlen"`
+		Pay  string `json:"pay"`
 		Body string `json:"body"`
 	}
 	var rows []row
 	for _, c := range catalogue() {
-		rows = append(rows, row{c.Kind, c.IDK, c.ID.safe(), len(c.Body), utf8.RuneCount(c.Body), string(c.Body)})
+		rows = append(rows, row{c.Kind, c.IDK, c.ID.safe(), len(c.Body), utf8.RuneCount(c.Body), c.Pay, string(c.Body)})
 	}
 	b, _ := json.Marshal(rows)
 	fmt.Println(string(b))
@@ -272,7 +329,9 @@ type behaviour struct {
 	Chunks  []int    `json:"chunks"`
 	Read    []int    `json:"read"`
 	Err     string   `json:"err"`
-	IDs     []tid    `json:"ids"` // the spec's ReadIds: the typed id of every message it predicts to be read
+	IDs     []tid    `json:"ids"`  // the spec's ReadIds: the typed id of every message it predicts to be read
+	Pays    []string `json:"pays"` // the spec's ReadPays: the payload kind of every message it predicts to be read
+	sentPay []string // payload kinds of the messages sent (from the catalogue)
 }
 
 const hdrName = "Content-Length"
@@ -483,7 +542,8 @@ func (c *chunkReader) Close() error                { return nil }
 
 type outcome struct {
 	Decoded []string `json:"decoded"`
-	IDs     []tid    `json:"ids"` // typed ids of the decoded messages (tlaSafe spelling)
+	IDs     []tid    `json:"ids"`  // typed ids of the decoded messages (tlaSafe spelling)
+	Pays    []string `json:"pays"` // payload kinds of the decoded messages
 	ErrCls  string   `json:"err_class"`
 	ErrText string   `json:"err_text"`
 	Panic   string   `json:"panic,omitempty"`
@@ -530,6 +590,7 @@ func readAll(rwc io.ReadWriteCloser, limit int) (o outcome) {
 		}
 		o.Decoded = append(o.Decoded, describe(msg))
 		o.IDs = append(o.IDs, tidOfMsg(msg).safe())
+		o.Pays = append(o.Pays, payKind(msg))
 	}
 	o.ErrCls, o.ErrText = "none", "reader produced more messages than were sent"
 	return o
@@ -585,6 +646,16 @@ func judge(b *behaviour, sent []string, o outcome) (sig, what string, drift bool
 			return "Framing.IdsPreserved", what, false
 		}
 	}
+	// PayloadsPreserved: the kind of value read back (object, array, string, number, true, false, null; error with
+	// or without data) is the kind written
+	for k, got := range o.Pays {
+		if k < len(b.Pays) {
+			paysCompared++
+			if got != b.Pays[k] {
+				return "Framing.PayloadsPreserved", fmt.Sprintf("message %d was written with a %s payload and read back with a %s payload", k+1, b.Pays[k], got), false
+			}
+		}
+	}
 	if !isPrefix(o.Decoded, sent) {
 		return "Framing.ReadIsPrefixOfSent." + b.Variant, "decoded messages are not a prefix of the messages sent", false
 	}
@@ -594,7 +665,11 @@ func judge(b *behaviour, sent []string, o outcome) (sig, what string, drift bool
 	switch b.Class {
 	case "good":
 		if len(o.Decoded) != len(sent) {
-			return "Framing.Lossless." + b.Variant, fmt.Sprintf("only %d of %d well-formed frames were read back (%s)", len(o.Decoded), len(sent), o.ErrText), false
+			sig := "Framing.Lossless." + b.Variant
+			if k := len(o.Decoded); k < len(b.sentPay) && strings.HasPrefix(sent[k], "response") {
+				sig = "Framing.Lossless.Response." + b.sentPay[k] // the frame that was lost is a response with this kind of result
+			}
+			return sig, fmt.Sprintf("only %d of %d well-formed frames were read back (%s); not read: %s", len(o.Decoded), len(sent), o.ErrText, sent[len(o.Decoded)]), false
 		}
 		if o.ErrCls != "eof-clean" {
 			return "", "", true
@@ -624,7 +699,7 @@ func judge(b *behaviour, sent []string, o outcome) (sig, what string, drift bool
 
 // how many decoded ids were compared with the spec's prediction, and how many of them were string ids that
 // look like numbers (the check fails closed on both)
-var idsCompared, numStrRead int
+var idsCompared, numStrRead, paysCompared int
 
 func idKind(t tid) string {
 	switch t.T {
@@ -699,6 +774,7 @@ func pipeRun(wire []byte, chunks []int, frameEnds []int, expectMsgs int) (sig, w
 	type item struct {
 		desc string
 		id   tid
+		pay  string
 		err  error
 		tot  int64
 		pan  string
@@ -723,7 +799,7 @@ func pipeRun(wire []byte, chunks []int, frameEnds []int, expectMsgs int) (sig, w
 				pr.Close() // the writer side must not block on a reader that has given up
 				return
 			}
-			out <- item{desc: describe(msg), id: tidOfMsg(msg).safe()}
+			out <- item{desc: describe(msg), id: tidOfMsg(msg).safe(), pay: payKind(msg)}
 		}
 	}()
 	const watchdog = 8 * time.Second
@@ -747,6 +823,7 @@ func pipeRun(wire []byte, chunks []int, frameEnds []int, expectMsgs int) (sig, w
 		default:
 			o.Decoded = append(o.Decoded, it.desc)
 			o.IDs = append(o.IDs, it.id)
+			o.Pays = append(o.Pays, it.pay)
 		}
 	}
 	pos, nextEnd := 0, 0
@@ -871,6 +948,7 @@ func framing(path string, seed int64, splits int) {
 		var sent []string
 		for _, mi := range b.Sent {
 			sent = append(sent, cat[mi-1].Desc)
+			b.sentPay = append(b.sentPay, cat[mi-1].Pay)
 		}
 		if len(b.Chunks) > maxChunks {
 			maxChunks = len(b.Chunks)
@@ -927,6 +1005,8 @@ func framing(path string, seed int64, splits int) {
 			gb := behaviour{Sent: b.Sent, Variant: "none", Class: "good", Err: "eof-clean"}
 			for _, mi := range b.Sent {
 				gb.IDs = append(gb.IDs, cat[mi-1].ID.safe())
+				gb.Pays = append(gb.Pays, cat[mi-1].Pay)
+				gb.sentPay = append(gb.sentPay, cat[mi-1].Pay)
 			}
 			ro := readAll(&chunkReader{data: rt, chunks: append([]int(nil), ch...)}, len(sent))
 			roundtrips++
@@ -954,5 +1034,5 @@ func framing(path string, seed int64, splits int) {
 	sort.Strings(vs)
 	vhlib.Summary(map[string]any{"behaviours": nbeh, "stream_runs": nrun, "pipe_runs": npipe, "roundtrips": roundtrips, "fails": fails, "drift": drifts,
 		"variants": vs, "classes": classes, "errors": errs, "catalogue": len(cat), "max_chunks": maxChunks,
-		"ids_compared": idsCompared, "numeric_string_ids_read": numStrRead})
+		"ids_compared": idsCompared, "pays_compared": paysCompared, "numeric_string_ids_read": numStrRead})
 }
